@@ -54,12 +54,19 @@ def has_escape(pattern):
     return '~' in pattern
 
 
+def unescape(pattern):
+    """The text a pattern without wildcards stands for (~~ ~* ~? -> ~ * ?)."""
+    return re.sub(r'~([~*?])', r'\1', pattern)
+
+
 # -- MATCH / INDEX / LOOKUP ---------------------------------------------------
 
 def match_pos(key, vec, mt):
     """1-based position or None (not found)."""
     if mt == 0:
         rx = wildcard(key) if tid(key) == 't' else None
+        if rx is None and tid(key) == 't':
+            key = unescape(key)
         for i, v in enumerate(vec):
             if rx is not None:
                 if tid(v) == 't' and rx.match(v):
@@ -195,14 +202,12 @@ def member(cell, op, x):
     if kx == 't':
         rx = wildcard(x) if op in ('=', '<>') else None
         if rx is not None:
-            if has_escape(x):
-                return EITHER
             hit = bool(rx.match(cell))
             return YES if hit == (op == '=') else NO
         a, b = cell.casefold(), x.casefold()
         if op in ('=', '<>'):
-            return YES if (a == b) == (op == '=') else NO
-        if not rs.text_order_certain(cell, x):
+            return YES if (a == unescape(x).casefold()) == (op == '=') else NO
+        if has_escape(x) or not rs.text_order_certain(cell, x):
             return EITHER
     else:
         a, b = cell, x
